@@ -39,7 +39,7 @@ func runC03(opt *Options) int {
 	convs = append(convs, layerb.FamilyField(opt.Thorough())...)
 	convs = append(convs, layerb.FamilyFieldRandom(map[bool]int{false: 16, true: 200}[opt.Thorough()])...)
 	for _, c := range layerb.FamilyShape(false, opt.Seed) {
-		if c.ExpectFail || strings.Contains(c.ID, "shape/alias_") {
+		if c.ExpectFail || strings.Contains(c.ID, "shape/alias_") || strings.Contains(c.ID, "shape/generic_") {
 			convs = append(convs, c)
 		}
 	}
